@@ -1,7 +1,9 @@
 package main
 
 import (
+	"fmt"
 	"go/ast"
+	"go/token"
 	"go/types"
 	"strings"
 )
@@ -119,4 +121,496 @@ func ruleAPPENDER1(c *Ctx) {
 		})
 	}
 	c.Floor("uses of user append-style methods", n, 1)
+}
+
+func init() {
+	register(&Rule{ID: "IMPL-1", Doc: "whether a type has a marshal or unmarshal method is asked through implements/implementsAny, which also look at the pointer receiver: the table allMethodTypes is only ever the spread argument of implementsAny, and none of the method-interface type variables (jsonMarshalerType … textUnmarshalerType) is the argument of a direct reflect.Type.Implements call outside implements()", Run: ruleIMPL1})
+	register(&Rule{ID: "SETNUM-1", Doc: "a numeric destination is never set from raw input bytes: in the unmarshal closures of package json no argument of reflect.Value.SetInt / SetUint / SetFloat indexes or slices a []byte (the digits must go through jsonwire.ParseUint / ParseFloat or strconv, which is where the grammar of a quoted number is enforced)", Run: ruleSETNUM1})
+	register(&Rule{ID: "DEPTH-4", Doc: "the depth predicate agrees with the depth guard: every bool-returning method of stateMachine that compares with maxNestingDepth (AtMaxDepth) is false for a stack of maxNestingDepth-1 entries and true for maxNestingDepth entries, with Depth() resolved from its body (len(Stack)+1) — the same threshold at which pushObject/pushArray refuse", Run: ruleDEPTH4})
+	register(&Rule{ID: "DELIM-1", Doc: "a missing delimiter is noticed: in decoderState.PeekKind, ReadToken and ReadValue the comparison of stateMachine.needDelim(next) with the delimiter actually seen is not nested inside a test of that delimiter byte (it must also run when no ':' or ',' was present)", Run: ruleDELIM1})
+	register(&Rule{ID: "DEFAULTS-1", Doc: "a default is installed per flag: wherever a block guarded by !Flags.Has(M) sets flags, M is a single flag and every flag set in the block is that flag — Has means `any of`, so a merged guard skips the default of one option when only the other was given", Run: ruleDEFAULTS1})
+	register(&Rule{ID: "COFIELD-1", Doc: "fields a v1 setter stores together are consulted together: when a method of a v1 type assigns two or more string fields of its receiver from its parameters (Encoder.SetIndent), every if-condition in the package that reads one of them reads all of them", Run: ruleCOFIELD1})
+	register(&Rule{ID: "NEGZERO-1", Doc: "negative zero is normalised on the value, not on the spelling: in jsonwire.ReformatNumber every path from strconv.ParseFloat to the formatting of the parsed value passes a test of that value against 0 (a negative number that underflows parses to -0 whatever its digits are)", Run: ruleNEGZERO1})
+}
+
+func ruleIMPL1(c *Ctx) {
+	p := c.P
+	tbl := p.Lookup("json", "allMethodTypes")
+	if tbl == nil {
+		c.Undecide("json.allMethodTypes", "variable missing")
+		return
+	}
+	methodVars := map[types.Object]bool{}
+	for _, nm := range []string{"jsonMarshalerType", "jsonMarshalerToType", "jsonUnmarshalerType", "jsonUnmarshalerFromType", "textAppenderType", "textMarshalerType", "textUnmarshalerType"} {
+		if o := p.Lookup("json", nm); o != nil {
+			methodVars[o] = true
+		}
+	}
+	nTbl, nVar := 0, 0
+	for _, f := range p.FuncsIn("json") {
+		if f.Body() == nil {
+			continue
+		}
+		info := f.Info()
+		inImplements := f.Obj != nil && f.Obj.Name() == "implements"
+		InspectNoLit(f.Body(), func(nd ast.Node) bool {
+			switch x := nd.(type) {
+			case *ast.Ident:
+				if info.Uses[x] != tbl {
+					return true
+				}
+				nTbl++
+				ok := false
+				if call, isCall := p.Parent(f.File, x).(*ast.CallExpr); isCall && call.Ellipsis.IsValid() && len(call.Args) > 0 && call.Args[len(call.Args)-1] == ast.Expr(x) {
+					if fn := Callee(info, call); fn != nil && fn.Name() == "implementsAny" {
+						ok = true
+					}
+				}
+				c.Oblige("method-table-only-through-implementsAny:"+f.Name, x.Pos(), ok, "allMethodTypes is used other than as `implementsAny(t, allMethodTypes...)`: a direct Implements test only sees the value-receiver method set, so a type whose methods are on the pointer receiver is taken for one without methods (its methods are then silently bypassed)")
+			case *ast.CallExpr:
+				fn := Callee(info, x)
+				if fn == nil || fn.Name() != "Implements" || fn.Pkg() == nil || fn.Pkg().Path() != "reflect" || len(x.Args) != 1 {
+					return true
+				}
+				if o := IdentObj(info, x.Args[0]); o != nil && methodVars[o] {
+					nVar++
+					c.Oblige("method-type-only-through-implements:"+f.Name+":"+o.Name(), x.Pos(), inImplements, "`"+exprString(x)+"` asks about one receiver kind only; implements() also considers the pointer receiver")
+				}
+			}
+			return true
+		})
+	}
+	c.Floor("uses of allMethodTypes", nTbl, 3)
+	_ = nVar
+}
+
+func ruleSETNUM1(c *Ctx) {
+	p := c.P
+	n := 0
+	for _, f := range p.FuncsIn("json") {
+		if f.Body() == nil {
+			continue
+		}
+		info := f.Info()
+		InspectNoLit(f.Body(), func(nd ast.Node) bool {
+			call, ok := nd.(*ast.CallExpr)
+			if !ok || len(call.Args) != 1 {
+				return true
+			}
+			fn := Callee(info, call)
+			if fn == nil || fn.Pkg() == nil || fn.Pkg().Path() != "reflect" || !(fn.Name() == "SetInt" || fn.Name() == "SetUint" || fn.Name() == "SetFloat") {
+				return true
+			}
+			n++
+			raw := ""
+			ast.Inspect(call.Args[0], func(m ast.Node) bool {
+				var x ast.Expr
+				switch e := m.(type) {
+				case *ast.IndexExpr:
+					x = e.X
+				case *ast.SliceExpr:
+					x = e.X
+				}
+				if x != nil && isByteSlice(info.TypeOf(x)) {
+					raw = exprString(m.(ast.Expr))
+				}
+				return true
+			})
+			c.Oblige("set-from-parsed-number:"+f.Name+"@"+exprString(call.Args[0]), call.Pos(), raw == "", "`"+exprString(call)+"` computes the number from the raw bytes `"+raw+"`: for a quoted number (string option, map key, StringifyNumbers) those bytes have not been checked against the number grammar, so text such as \"-\" or \"x\" is stored as an integer instead of being refused")
+			return true
+		})
+	}
+	c.Floor("SetInt/SetUint/SetFloat calls in package json", n, 12)
+}
+
+func ruleDEPTH4(c *Ctx) {
+	p := c.P
+	maxObj := p.Lookup("jsontext", "maxNestingDepth")
+	stackField := p.Field("jsontext", "stateMachine", "Stack")
+	max, okMax := p.ConstInt("jsontext", "maxNestingDepth")
+	if maxObj == nil || stackField == nil || !okMax {
+		c.Undecide("jsontext.maxNestingDepth", "missing")
+		return
+	}
+	// linear form of an int expression in L = len(m.Stack)
+	var lin func(f *FuncInfo, e ast.Expr, depth int) (a, b int64, ok bool)
+	lin = func(f *FuncInfo, e ast.Expr, depth int) (int64, int64, bool) {
+		info := f.Info()
+		e = ast.Unparen(e)
+		if v, isC := ConstI64(info, e); isC {
+			return 0, v, true
+		}
+		if isLenOfField(info, e, stackField) {
+			return 1, 0, true
+		}
+		switch x := e.(type) {
+		case *ast.BinaryExpr:
+			a1, b1, ok1 := lin(f, x.X, depth)
+			a2, b2, ok2 := lin(f, x.Y, depth)
+			if ok1 && ok2 {
+				switch x.Op {
+				case token.ADD:
+					return a1 + a2, b1 + b2, true
+				case token.SUB:
+					return a1 - a2, b1 - b2, true
+				}
+			}
+		case *ast.CallExpr:
+			if depth < 3 && len(x.Args) == 0 {
+				if fn := Callee(info, x); fn != nil {
+					if g := p.FuncOf(fn); g != nil && g.Body() != nil {
+						rs := Returns(g.Body())
+						if len(rs) == 1 && len(rs[0].Results) == 1 {
+							return lin(g, rs[0].Results[0], depth+1)
+						}
+					}
+				}
+			}
+		}
+		return 0, 0, false
+	}
+	n := 0
+	for _, f := range p.FuncsIn("jsontext") {
+		if f.Decl == nil || f.Body() == nil || f.Obj == nil {
+			continue
+		}
+		sig := f.Obj.Type().(*types.Signature)
+		if sig.Recv() == nil || !isNamed(sig.Recv().Type(), pkgAlias["jsontext"], "stateMachine") || sig.Results().Len() != 1 {
+			continue
+		}
+		if b, ok := sig.Results().At(0).Type().Underlying().(*types.Basic); !ok || b.Kind() != types.Bool {
+			continue
+		}
+		info := f.Info()
+		for _, r := range Returns(f.Body()) {
+			be, ok := ast.Unparen(r.Results[0]).(*ast.BinaryExpr)
+			if !ok || !tokIsCmp(be.Op) || !(usesObj(info, be.X, maxObj) || usesObj(info, be.Y, maxObj)) {
+				continue
+			}
+			n++
+			a1, b1, ok1 := lin(f, be.X, 0)
+			a2, b2, ok2 := lin(f, be.Y, 0)
+			key := "depth-predicate-threshold:" + f.Name
+			if !ok1 || !ok2 {
+				c.Undecide(key, "comparison `"+exprString(be)+"` is not linear in len(Stack)")
+				continue
+			}
+			at := func(L int64) bool {
+				l, rr := a1*L+b1, a2*L+b2
+				switch be.Op {
+				case token.EQL:
+					return l == rr
+				case token.NEQ:
+					return l != rr
+				case token.LSS:
+					return l < rr
+				case token.LEQ:
+					return l <= rr
+				case token.GTR:
+					return l > rr
+				default:
+					return l >= rr
+				}
+			}
+			good := !at(max-1) && at(max)
+			c.Oblige(key, be.Pos(), good, fmt.Sprintf("`%s` is %v for a stack of %d entries and %v for %d: pushObject/pushArray refuse at exactly %d entries, so a caller that trusts this predicate (the empty-container fast paths of Marshal) writes a container at depth %d or refuses one at depth %d", exprString(be), at(max-1), max-1, at(max), max, max, max+1, max))
+		}
+	}
+	c.Floor("depth predicates on stateMachine", n, 1)
+}
+
+func ruleDELIM1(c *Ctx) {
+	p := c.P
+	n := 0
+	seen := map[*FuncInfo]bool{}
+	for _, nm := range []string{"jsontext.(*decoderState).PeekKind", "jsontext.(*decoderState).ReadToken", "jsontext.(*decoderState).ReadValue"} {
+		f := p.Func(nm)
+		if f == nil || f.Body() == nil {
+			c.Undecide(nm, "function missing")
+			continue
+		}
+		// the preamble may live in a helper shared by the three entry points
+		for _, g := range p.CalleeClosure(f, 3) {
+			if g.Body() == nil || g.File != f.File || seen[g] {
+				continue
+			}
+			seen[g] = true
+			info := g.Info()
+			k := 0
+			InspectNoLit(g.Body(), func(nd ast.Node) bool {
+				be, ok := nd.(*ast.BinaryExpr)
+				if !ok || (be.Op != token.NEQ && be.Op != token.EQL) {
+					return true
+				}
+				isND := func(e ast.Expr) bool {
+					call, ok := ast.Unparen(e).(*ast.CallExpr)
+					if !ok {
+						return false
+					}
+					_, ok = MethodCall(info, call, "jsontext", "stateMachine", "needDelim")
+					return ok
+				}
+				if !isND(be.X) && !isND(be.Y) {
+					return true
+				}
+				n++
+				k++
+				bad := ""
+				for _, cc := range enclosingConds(p, g, be) {
+					if mentionsLit(info, cc.cond, ':', ',') {
+						bad = exprString(cc.cond)
+					}
+				}
+				c.Oblige(fmt.Sprintf("delimiter-check-unconditional:%s#%d", g.Name, k), be.Pos(), bad == "", "the test of needDelim against the delimiter seen only runs under `"+bad+"`, i.e. when a ':' or ',' was present: a missing delimiter (`[1 2]`, `{\"a\" 1}`) is no longer refused on this route")
+				return true
+			})
+		}
+	}
+	c.Floor("needDelim comparisons reachable from PeekKind/ReadToken/ReadValue", n, 2)
+}
+
+func ruleDEFAULTS1(c *Ctx) {
+	p := c.P
+	n := 0
+	for _, f := range p.FuncsIn("json", "jsontext", "jsonopts", "v1") {
+		if f.Body() == nil {
+			continue
+		}
+		info := f.Info()
+		k := 0
+		InspectNoLit(f.Body(), func(nd ast.Node) bool {
+			ifs, ok := nd.(*ast.IfStmt)
+			if !ok {
+				return true
+			}
+			un, ok := ast.Unparen(ifs.Cond).(*ast.UnaryExpr)
+			if !ok || un.Op != token.NOT {
+				return true
+			}
+			call, ok := ast.Unparen(un.X).(*ast.CallExpr)
+			if !ok {
+				return true
+			}
+			m, recv, mask, ok := FlagCall(info, call)
+			if !ok || m != "Has" {
+				return true
+			}
+			var set []string
+			for _, c2 := range CallsIn(ifs.Body) {
+				if m2, recv2, v2, ok := FlagCall(info, c2); ok && m2 == "Set" && exprString(recv2) == exprString(recv) {
+					set = append(set, p.Flags().Names(v2&^1)) // without the value bit
+				}
+			}
+			if len(set) == 0 {
+				return true
+			}
+			n++
+			k++
+			maskNames := p.Flags().Names(mask)
+			good := !strings.Contains(maskNames, "|")
+			for _, s := range set {
+				if s != maskNames {
+					good = false
+				}
+			}
+			c.Oblige(fmt.Sprintf("default-per-flag:%s#%d", f.Name, k), ifs.Pos(), good, "the block guarded by !Has("+maskNames+") sets {"+strings.Join(set, ", ")+"}: Has reports whether ANY flag of the mask is present, so when only one of them was given explicitly the default of the other is skipped")
+			return true
+		})
+	}
+	c.Floor("defaults installed under !Has", n, 2)
+}
+
+func ruleCOFIELD1(c *Ctx) {
+	p := c.P
+	nGroups, nConds := 0, 0
+	type group struct {
+		fields []*types.Var
+		setter string
+	}
+	var groups []group
+	for _, f := range p.FuncsIn("v1") {
+		if f.Decl == nil || f.Body() == nil || f.Decl.Recv == nil || f.Obj == nil {
+			continue
+		}
+		info := f.Info()
+		sig := f.Obj.Type().(*types.Signature)
+		var fs []*types.Var
+		for _, as := range findAll[*ast.AssignStmt](f.Body()) {
+			if len(as.Lhs) != 1 || len(as.Rhs) != 1 {
+				continue
+			}
+			fld := SelField(info, as.Lhs[0])
+			pv, _ := IdentObj(info, as.Rhs[0]).(*types.Var)
+			if fld == nil || pv == nil {
+				continue
+			}
+			isParam := false
+			for i := 0; i < sig.Params().Len(); i++ {
+				if sig.Params().At(i) == pv {
+					isParam = true
+				}
+			}
+			if b, ok := fld.Type().Underlying().(*types.Basic); isParam && ok && b.Kind() == types.String {
+				fs = append(fs, fld)
+			}
+		}
+		if len(fs) >= 2 {
+			groups = append(groups, group{fs, f.Name})
+			nGroups++
+		}
+	}
+	for _, f := range p.FuncsIn("v1") {
+		if f.Body() == nil {
+			continue
+		}
+		info := f.Info()
+		k := 0
+		for _, ifs := range findAll[*ast.IfStmt](f.Body()) {
+			for _, g := range groups {
+				read := map[*types.Var]bool{}
+				ast.Inspect(ifs.Cond, func(m ast.Node) bool {
+					if e, ok := m.(ast.Expr); ok {
+						if fld := SelField(info, e); fld != nil {
+							for _, gf := range g.fields {
+								if gf == fld {
+									read[fld] = true
+								}
+							}
+						}
+					}
+					return true
+				})
+				if len(read) == 0 {
+					continue
+				}
+				nConds++
+				k++
+				var missing []string
+				for _, gf := range g.fields {
+					if !read[gf] {
+						missing = append(missing, gf.Name())
+					}
+				}
+				c.Oblige(fmt.Sprintf("co-stored-fields-co-tested:%s#%d", f.Name, k), ifs.Pos(), len(missing) == 0, "`"+exprString(ifs.Cond)+"` looks at only part of what "+g.setter+" stores together (not at "+strings.Join(missing, ", ")+"): a setting that uses only the other field (a prefix without an indent string) is ignored here although encoding/json honours it")
+			}
+		}
+	}
+	c.Floor("v1 setters that store several string fields", nGroups, 1)
+	c.Floor("conditions over co-stored v1 fields", nConds, 1)
+}
+
+func ruleNEGZERO1(c *Ctx) {
+	p := c.P
+	f := p.Func("jsonwire.ReformatNumber")
+	if f == nil || f.Body() == nil {
+		c.Undecide("jsonwire.ReformatNumber", "function missing")
+		return
+	}
+	n := 0
+	for _, g := range p.CalleeClosure(f, 1) {
+		if g.Body() == nil || g.File != f.File {
+			continue
+		}
+		info := g.Info()
+		for _, as := range findAll[*ast.AssignStmt](g.Body()) {
+			if len(as.Rhs) != 1 || len(as.Lhs) < 1 {
+				continue
+			}
+			call, ok := ast.Unparen(as.Rhs[0]).(*ast.CallExpr)
+			if !ok || !FuncCall(info, call, "strconv", "ParseFloat") {
+				continue
+			}
+			fv := IdentObj(info, as.Lhs[0])
+			if fv == nil {
+				continue
+			}
+			n++
+			// a comparison of fv with the constant 0 (or math.Signbit(fv)) somewhere after the parse
+			tested := false
+			ast.Inspect(g.Body(), func(m ast.Node) bool {
+				switch x := m.(type) {
+				case *ast.BinaryExpr:
+					if x.Op == token.EQL || x.Op == token.NEQ {
+						l, r := x.X, x.Y
+						if IdentObj(info, r) == fv {
+							l, r = r, l
+						}
+						if IdentObj(info, l) == fv && x.Pos() > as.Pos() {
+							if tv, ok := info.Types[r]; ok && tv.Value != nil && (tv.Value.String() == "0" || tv.Value.String() == "-0") {
+								tested = true
+							}
+						}
+					}
+				case *ast.CallExpr:
+					if FuncCall(info, x, "math", "Signbit") && len(x.Args) == 1 && IdentObj(info, x.Args[0]) == fv {
+						tested = true
+					}
+				}
+				return true
+			})
+			c.Oblige("parsed-zero-normalised:"+g.Name, as.Pos(), tested, "the value parsed by strconv.ParseFloat is never compared with 0 before it is formatted: a negative number too small for float64 (`-1e-400`) parses to -0 and is printed as `-0`, while RFC 8785 / ECMAScript print 0 and the texts `-0`, `-0.0` canonicalize to `0`")
+		}
+	}
+	c.Floor("ParseFloat results in ReformatNumber", n, 1)
+}
+
+func init() {
+	register(&Rule{ID: "FALLBACK-1", Doc: "the dominant embedded fallback is decided between the two shallowest candidates: in the condition that guards the assignment of structFields.embeddedFallback, the depth-sorted candidate list is indexed with the constants 0 and 1 only (a tie between the first two cancels both, whatever lies deeper)", Run: ruleFALLBACK1})
+}
+
+func ruleFALLBACK1(c *Ctx) {
+	p := c.P
+	fld := p.Field("json", "structFields", "embeddedFallback")
+	if fld == nil {
+		c.Undecide("json.structFields.embeddedFallback", "field missing")
+		return
+	}
+	n := 0
+	for _, f := range p.FuncsIn("json") {
+		if f.Body() == nil {
+			continue
+		}
+		info := f.Info()
+		InspectNoLit(f.Body(), func(nd ast.Node) bool {
+			as, ok := nd.(*ast.AssignStmt)
+			if !ok || len(as.Lhs) != 1 || len(as.Rhs) != 1 || SelField(info, as.Lhs[0]) != fld {
+				return true
+			}
+			un, ok := ast.Unparen(as.Rhs[0]).(*ast.UnaryExpr)
+			if !ok || un.Op != token.AND {
+				return true
+			}
+			ix, ok := ast.Unparen(un.X).(*ast.IndexExpr)
+			if !ok {
+				return true
+			}
+			list := IdentObj(info, ix.X)
+			if list == nil {
+				return true
+			}
+			n++
+			seen := map[string]bool{}
+			bad := ""
+			for _, cc := range enclosingConds(p, f, as) {
+				ast.Inspect(cc.cond, func(m ast.Node) bool {
+					if e, ok := m.(*ast.IndexExpr); ok && IdentObj(info, e.X) == list {
+						if v, isC := ConstI64(info, e.Index); isC && (v == 0 || v == 1) {
+							seen[fmt.Sprint(v)] = true
+						} else {
+							bad = exprString(e)
+						}
+					}
+					return true
+				})
+			}
+			good := bad == "" && seen["0"] && seen["1"]
+			detail := "the tie test does not compare candidates 0 and 1"
+			if bad != "" {
+				detail = "the tie test looks at `" + bad + "`: with three or more candidates a tie between the two shallowest is missed whenever a deeper one exists, and the first of the tied fields is used instead of none"
+			}
+			c.Oblige("fallback-tie-between-first-two:"+f.Name, as.Pos(), good, detail)
+			return true
+		})
+	}
+	c.Floor("assignments of the dominant embedded fallback", n, 1)
 }
